@@ -8,8 +8,8 @@ from vf import q, qlist, clist, cbool, cnat, copt, frac, fr_json
 
 ID = 'C09'
 COQ_DIR = 'C09'
-COQ_HEADER = 'From V Require Import Common.Num C09.Model C09.Dense.\nOpen Scope Q_scope.'
-MODEL_FILES = ('Model.v', 'Dense.v')
+COQ_HEADER = 'From V Require Import Common.Num C09.Model C09.Dense C09.Model3.\nOpen Scope Q_scope.'
+MODEL_FILES = ('Model.v', 'Dense.v', 'Model3.v')
 LEGACY = bool(os.environ.get('C09_LEGACY'))      # model of the unrepaired kernels (re-establishing DESIGN section 5 items 18, 19)
 RULE = ('random histories of 4-30 operations over a store of 4-6 sparse objects (SparseVector sizes 1-6, SparseLogicalVector, '
         'SparseArray up to 3x6, float and boolean), values from {0, 1, -1, 1/2, -1/2, 2, -2, 3/2, 1024, 1/1024}; operations: '
@@ -20,17 +20,21 @@ RULE = ('random histories of 4-30 operations over a store of 4-6 sparse objects 
         'operand kind x operator.  Executed on the real classes and on the Coq model: per-operation outcome (exception class, result '
         'kind, values) and the final store (sorted dict/set contents as cells, size, read_only) are compared, values to 1e-9 '
         'relative, structure exactly.  The same histories are run with NumPy on the dense images and compared with the dense '
-        'reference semantics (np_run) of the model.  non-trivial = at least one operation returned normally and changed or created '
+        'reference semantics (run_np3 = np_step extended by np_extra3: 2-d block reads, writes into logical vectors, mean/max/min of '
+        'logical vectors) of the model.  Sweeps of the second deepening round: every row selector x column selector block read, every '
+        'index kind x value kind write into a logical vector, all reductions of logical vectors; python ints as indices incl. negative '
+        'ones (reads, writes, slices with negative bounds, SparseArray a[k], a[k, j], a[[k...], j]) and a[:, ndarray], run through yrun / '
+        'yrun_np of coq/C09/Model3.v.  non-trivial = at least one operation returned normally and changed or created '
         'an object with a non-zero entry; distinct = distinct case hash')
 ASSUMPTIONS = ['float rounding, nan, inf and -0.0 are not modelled: inputs are dyadic, values compared to 1e-9 relative, branch decisions exact',
-               'indices are non-negative; negative indices and negative slice bounds/steps are outside the model',
+               'negative ints as SparseVector indices / slice bounds and as SparseArray row / column indices are modelled as the code treats them (coq/C09/Model3.v, part B; listed finding negative-index); negative steps and negative indices in writes to arrays are outside the model',
                'every row of a SparseArray has the same size and dtype (rows are only created by the library from rectangular input)',
                'results are compared with NumPy up to leading axes of length 1 (reduce_ndim drops them by design) and up to bool/float dtype (True = 1.0)',
                'theorems are about the source with pending_fixes/C09_1..C09_7 applied (model flag lg = false); the kernels of the unrepaired source are kept (lg = true, C09_LEGACY=1) and their defects are stated as C09_legacy_* theorems',
                'refinement theorems cover + - * fully and / where NumPy returns; the statements refuted in Props.v (0/0, in-place resize, unchecked shapes/indices, read-only arrays) are known findings',
                'copy_like is generated only between objects of the same kind and shape (the method compares neither, and does not test read_only); '
                'in-place operators with a one-row 2-d operand are compared with NumPy after dropping that axis',
-               'the history-refinement theorem covers the float-vector fragment (fop); the invariant, frame and rejection theorems cover every modelled operation']
+               'the history-refinement theorems cover the fragments fop / fop2 / fop3 (float vectors, row-wise float arrays, logical vectors incl. writes and all six reductions, 2-d block reads); the invariant, frame and rejection theorems cover every modelled operation']
 TRUSTED = ['model coq/C09/Model.v is hand-written from thermosteam/base/sparse.py; tie = correspondence check on every run',
            'dense reference semantics coq/C09/Dense.v is hand-written from NumPy broadcasting/error rules; tie = the same operations run with NumPy on the dense images of the real operands and compared with np_step',
            'Python semantics transcribed by hand: dict iteration with resizing raises RuntimeError, zip() truncation, list slicing clips, truthiness of 0.0, lazy iteration of a vector assigned to itself',
@@ -97,6 +101,22 @@ def build_index(ix):
     if k == 'sl': return slice(ix[1], ix[2], ix[3])
     if k == 'o': return slice(None)
     raise ValueError(k)
+
+def build_zindex(ix):
+    """python-int indices (possibly negative): ['zi', k] | ['zt', k] | ['zl', [k...]] | ['zn', [k...]] | ['zs', a, b, c]"""
+    k = ix[0]
+    if k == 'zi': return int(ix[1])
+    if k == 'zt': return (int(ix[1]),)
+    if k == 'zl': return [int(x) for x in ix[1]]
+    if k == 'zn': return np.array([int(x) for x in ix[1]], dtype=int)
+    if k == 'zs': return slice(ix[1], ix[2], ix[3])
+    raise ValueError(k)
+
+def build_zaindex(ax):
+    if ax[0] == 'zrow': return int(ax[1])
+    if ax[0] == 'zelem': return (int(ax[1]), int(ax[2]))
+    if ax[0] == 'zcol': return ([int(k) for k in ax[1]], int(ax[2]))
+    raise ValueError(ax[0])
 
 def build_aindex(ax):
     if ax[0] == 'row': return build_index(ax[1])
@@ -181,7 +201,9 @@ def data_ids(x):
 def wants(op):
     """kinds of store objects an operation can be aimed at"""
     n = op[0]
-    if n in ('aget', 'aset'): return ('a',)
+    if n in ('aget', 'aset', 'zaget', 'agetnd'): return ('a',)
+    if n == 'zget': return ('v', 'l')
+    if n == 'zset': return ('v',)
     if n == 'conv':
         return {'sv': ('v', 'l'), 'svc': ('v', 'l'), 'SV': ('v', 'l'), 'SL': ('v', 'l'),
                 'sa': ('a', 'b'), 'sac': ('a', 'b'), 'SA': ('a', 'b')}.get(op[1], ('v', 'l', 'a', 'b'))
@@ -219,7 +241,7 @@ def resolve_op(store, op):
     if i is None: return None
     op = list(op); op[pos] = i
     # operand objects
-    ai = {'bin': 3, 'ibin': 3, 'set': 3, 'aset': 3, 'copylike': 2}.get(n)
+    ai = {'bin': 3, 'ibin': 3, 'set': 3, 'aset': 3, 'copylike': 2, 'zset': 3}.get(n)
     if ai is not None and op[ai][0] == 'o':
         kinds = op[ai][2] if len(op[ai]) > 2 else ('v', 'l', 'a', 'b')
         j = pick(store, op[ai][1], kinds)
@@ -246,6 +268,9 @@ def resolve_op(store, op):
         size = int(x.size) if kind_of(x) in ('v', 'l') else len(x.rows) * int(x.vector_size)
         if op[2] is not None: op[2] = cyc(op[2], size, 0.0)
         elif n == 'fromflat': op[2] = [0.0] * size
+    if n in ('zget', 'zset', 'zaget', 'agetnd'):
+        x = store[i]
+        op.append({'n': int(x.vector_size), 'm': len(x.rows) if hasattr(x, 'rows') else 0})
     if n in ('get', 'set', 'aget', 'aset'):
         x = store[i]
         sz = {'n': int(x.vector_size), 'm': len(x.rows) if hasattr(x, 'rows') else 0}
@@ -335,6 +360,18 @@ def exec_op(store, op):
     elif n == 'red':
         x = store[op[2]]
         r = getattr(x, op[1])(axis=op[3], keepdims=op[4])
+    elif n == 'zget':
+        x = store[op[1]]; r = x[build_zindex(op[2])]
+    elif n == 'zset':
+        x = store[op[1]]; x[build_zindex(op[2])] = build_arg(op[3], store); return ['unit'], None
+    elif n == 'zaget':
+        x = store[op[1]]; r = x[build_zaindex(op[2])]
+        if kind_of(r): return ['new', snap(r)], None            # the row object itself: reported, not stored
+        return obs_value(r), None
+    elif n == 'agetnd':                                         # a[:, n] with n an ndarray
+        x = store[op[1]]; r = x[(slice(None), build_index(op[2]))]
+        if r is x: return ['self'], None
+        return obs_value(r), None
     elif n == 'conv':
         e = env(); sp = e['sp']; x = store[op[2]]; how = op[1]
         if how == 'sv': r = sp.sparse_vector(x)
@@ -473,6 +510,26 @@ BOP = {'add': '(BA Add)', 'sub': '(BA Sub)', 'mul': '(BA Mul)', 'truediv': '(BA 
 AOP = {'add': 'Add', 'sub': 'Sub', 'mul': 'Mul', 'truediv': 'Div'}
 RED = {'any': 'RAny', 'all': 'RAll', 'sum': 'RSum', 'mean': 'RMean', 'max': 'RMax', 'min': 'RMin'}
 UN = {'neg': 'ONeg', 'abs': 'OAbs', 'invert': 'OInvert', 'copy': 'OCopy', 'clear': 'OClear', 'setro': 'OSetRO', 'toarray': 'OToArray'}
+def cz(k): return f'({int(k)})%Z'
+def czindex(ix, size):
+    k = ix[0]
+    if k == 'zi': return f'(ZInt {cz(ix[1])})'
+    if k == 'zt': return f'(ZTup {cz(ix[1])})'
+    if k in ('zl', 'zn'): return f'(ZList {clist(ix[1], cz)})'
+    if k == 'zs':
+        return f'(ZSlice {cz(0 if ix[1] is None else ix[1])} {cz(size if ix[2] is None else ix[2])} {cnat(1 if ix[3] is None else ix[3])})'
+    raise ValueError(k)
+def czaindex(ax):
+    if ax[0] == 'zrow': return f'(ZRow {cz(ax[1])})'
+    if ax[0] == 'zelem': return f'(ZElem {cz(ax[1])} {cz(ax[2])})'
+    return f'(ZCol {clist(ax[1], cz)} {cz(ax[2])})'
+def cyop(op):
+    n = op[0]
+    if n == 'zget': return f'(YGet {cnat(op[1])} {czindex(op[2], op[-1]["n"])})'
+    if n == 'zset': return f'(YSet {cnat(op[1])} {czindex(op[2], op[-1]["n"])} {carg(op[3])})'
+    if n == 'zaget': return f'(YAGet {cnat(op[1])} {czaindex(op[2])})'
+    if n == 'agetnd': return f'(YAGetNd {cnat(op[1])} {cindex(op[2], op[-1]["n"])})'
+    return f'(YOp {cop(op)})'
 def cop(op):
     n = op[0]
     if n == 'bin': return f'(XOp (OBin {BOP[op[1]]} {cnat(op[2])} {carg(op[3])}))'
@@ -507,11 +564,12 @@ def coutcome(o):
 
 def coq_case(case, out):
     init = clist(case['objs'], cinit)
-    ops = clist(out['ops'], cop)
+    zcase = bool(case.get('z'))
+    ops = clist(out['ops'], cyop if zcase else cop)
     fin = clist(out['final'], cobj)
     outs = clist(out['outs'], coutcome)
     ok = (out['aliased'] is None or LEGACY) and 'inexact' not in out
-    t = f'(run_eqb {cbool(LEGACY)} {init} {ops} {fin} {outs} && {cbool(ok)}'
+    t = f'({"yrun_eqb" if zcase else "run_eqb"} {cbool(LEGACY)} {init} {ops} {fin} {outs} && {cbool(ok)}'
     # the initial store as observed must be what the model constructs
     t += f' && list_eqb obj_eqb {init} {clist(out["init"], cobj)}'
     if 'np' in out:
@@ -519,6 +577,7 @@ def coq_case(case, out):
     return t + ')'
 
 def coq_show(case, out):
+    if case.get('z'): return f'(yrun {cbool(LEGACY)} {clist(case["objs"], cinit)} {clist(out["ops"], cyop)})'
     return f'(run {cbool(LEGACY)} {clist(case["objs"], cinit)} {clist(out["ops"], cop)})'
 
 def nontrivial(case, out):
@@ -909,11 +968,98 @@ def conv_sweep(rng):
                 ops += [['un', 'toarray', -1], ['un', 'toarray', t]]
     return [{'objs': objs, 'ops': ops}]
 
+def deep3_sweep(rng):
+    """operations added to the all-histories fragment in the second deepening round: every 2-d block read (row selector x column
+    selector with one of them a slice), every form of write into a logical vector, mean / max / min of logical vectors"""
+    T, Fa = True, False
+    A = [[float(rng.choice(VALS[1:])) if rng.random() < 0.7 else 0.0 for _ in range(4)] for _ in range(3)]
+    rsl = [['o'], ['sl', None, None, None], ['sl', 0, 2, None], ['sl', 1, 3, 1], ['sl', 0, 3, 2], ['sl', 2, 2, None], ['sl', None, 1, None]]
+    rli = [['li', [0, 2]], ['li', [2, 0, 1]], ['ni', [1]], ['li', [1, 1]], ['m', [T, Fa, T]], ['nm', [Fa, T, T]], ['nm', [Fa, Fa, Fa]]]
+    csl = [['sl', 0, 2, None], ['sl', 1, 4, 2], ['sl', None, 3, None], ['sl', 3, 3, None], ['sl', 1, None, 1]]
+    cli = [['li', [0, 3]], ['li', [3, 3, 1]], ['ni', [2]], ['m', [T, Fa, Fa, T]], ['nm', [Fa, T, T, T]], ['li', []]]
+    ops = []
+    def listed(ni):       # a[:, ndarray] is the (proposed) finding open-row-slice-with-ndarray-columns: python lists here, ndarrays in negative_sweep
+        return [{'ni': 'li', 'nm': 'm'}.get(ni[0], ni[0])] + list(ni[1:])
+    for mi in rsl:
+        for ni in csl + cli: ops.append(['aget', 0, ['pair', mi, listed(ni) if mi[0] == 'o' or mi[1:] == [None, None, None] else ni], {'raw': True}])
+    for mi in rli:
+        for ni in csl: ops.append(['aget', 0, ['pair', mi, ni], {'raw': True}])
+    cases = [{'objs': [['a', A]], 'ops': ops[:len(ops) // 2]}, {'objs': [['a', A]], 'ops': ops[len(ops) // 2:]},
+             {'objs': [['a', A]], 'ops': [['ibin', 'sub', 0, ['o', 0]]] + ops[::3]}]
+    # writes into logical vectors
+    n = 4
+    base = gbools(rng, n); other = gbools(rng, n)
+    idxs = [['i', 0], ['t', 3], ['li', [0, 2]], ['ni', [3, 1, 0]], ['li', [1, 1]], ['li', []], ['m', [T, Fa, T, Fa]], ['nm', [Fa, Fa, Fa, Fa]],
+            ['sl', 1, 3, None], ['sl', 0, 4, 2], ['sl', 2, 2, None], ['o'], ['sl', None, None, None]]
+    ops = []
+    for ix in idxs:
+        cnt = index_count(ix, n)
+        vals = [['s', 0.0], ['s', 2.0], ['sb', T], ['sb', Fa], ['i', -1], ['n0', 0.5]]
+        if cnt is not None:
+            vals += [['bl', gbools(rng, cnt)], ['bn', gbools(rng, cnt)], ['l', gvals(rng, cnt, 0.5)], ['n', gvals(rng, cnt, 0.5)], ['bl', [T]], ['l', [0.0]]]
+            if cnt == n: vals.append(['o', 1, ['l']])
+            if not (ix[0] == 'o' or (ix[0] == 'sl' and ix[1] is None and ix[2] is None)):
+                vals.append(['bl', gbools(rng, cnt + 1)])          # wrong length (accepted by zip: listed finding; NumPy side rejects)
+        for v in vals:
+            ops += [['un', 'copy', 0], ['set', -1, ix, v, {'raw': True}]]
+    k = len(ops) // 3
+    k -= k % 2
+    for chunk in (ops[:k], ops[k:2 * k], ops[2 * k:]):
+        cases.append({'objs': [['l', base], ['l', other]], 'ops': chunk})
+    # mean / max / min (and the others) of logical vectors
+    reds = [['red', name, j, axis, keep] for j in (0, 1, 2, 3) for name in RED for axis in (None, 0) for keep in (False, True)]
+    cases.append({'objs': [['l', [T, Fa, T]], ['l', [Fa, Fa]], ['l', [T, T]], ['l', [Fa]]], 'ops': reds})
+    return cases
+
+def negative_sweep(rng):
+    """python ints as indices, negative ones included (coq/C09/Model3.v part B): reads of vectors and logical vectors with ints,
+    tuples, int lists / arrays and slices with negative bounds; writes; SparseArray rows a[k], a[k, j], a[[k...], j]"""
+    n = 4
+    v = [float(rng.choice(VALS[1:])) for _ in range(n)]; v[rng.randrange(n)] = 0.0
+    b = [True, False, True, True]
+    ks = list(range(-n - 1, n + 1))
+    ops = []
+    for k in ks: ops += [['zget', 0, ['zi', k]], ['zget', 0, ['zt', k]], ['zget', 1, ['zi', k]]]
+    ops += [['zget', 0, ['zl', [-1, 0, -n, n - 1]]], ['zget', 0, ['zn', [-2, -2, 1]]], ['zget', 0, ['zl', []]], ['zget', 1, ['zl', [-1, 2, -3]]]]
+    for a0 in (-n - 1, -n, -2, -1, 0, 1, None):
+        for b0 in (-n, -1, 0, 2, n, n + 1, None):
+            if a0 is None and b0 is None: continue
+            for c0 in (None, 2):
+                ops.append(['zget', 0, ['zs', a0, b0, c0]])
+            ops.append(['zget', 1, ['zs', a0, b0, None]])
+    cases = [{'z': True, 'objs': [['v', v, False], ['l', b]], 'ops': ops}]
+    # writes: a zero value (nothing is deleted) may be followed by other operations; a non-zero value stores the negative key and ends the history
+    wz = []
+    for ix in (['zi', -1], ['zt', -n], ['zl', [-1, 1]], ['zs', -2, n, None], ['zi', 2], ['zl', [0, -2, 3]]):
+        wz += [['un', 'copy', 0], ['zset', -1, ix, ['s', 0.0]], ['un', 'toarray', -1]]
+    wz += [['un', 'copy', 0], ['zset', -1, ['zl', [-1, 1]], ['l', [0.0, 7.0]]], ['un', 'toarray', -1],
+           ['un', 'copy', 0], ['zset', -1, ['zi', 1], ['s', 5.0]], ['zset', -1, ['zl', [0, 3]], ['l', [2.0, 0.0]]], ['un', 'toarray', -1]]
+    cases.append({'z': True, 'objs': [['v', v, False]], 'ops': wz})
+    for ix, val in ((['zi', -1], ['s', 5.0]), (['zt', -n], ['s', 1.0]), (['zl', [1, -1]], ['l', [3.0, 4.0]]), (['zs', -1, n, None], ['s', 2.0]),
+                    (['zi', -n - 1], ['s', 2.0]), (['zi', n], ['s', 2.0]), (['zl', [-2]], ['s', 0.5])):
+        cases.append({'z': True, 'objs': [['v', v, False]], 'ops': [['zget', 0, ['zi', 0]], ['zset', 0, ix, val]]})
+    # arrays
+    A = [[float(rng.choice(VALS[1:])) for _ in range(3)] for _ in range(3)]; A[1][2] = 0.0
+    aops = []
+    for k in range(-4, 4):
+        aops.append(['zaget', 0, ['zrow', k]])
+        for j in (-3, -1, 0, 2, 3): aops.append(['zaget', 0, ['zelem', k, j]])
+    for ksel in ([-1, 0], [-3, -3, 2], [0, -4], [], [1, 3]):
+        for j in (0, 2, -1): aops.append(['zaget', 0, ['zcol', ksel, j]])
+    cases.append({'z': True, 'objs': [['a', A]], 'ops': aops + [['ibin', 'mul', 0, ['s', 2.0]]] + aops[::4]})
+    # a[:, n] with n an ndarray: ValueError as soon as n has two elements
+    T, Fa = True, False
+    cases.append({'z': True, 'objs': [['a', A]],
+                  'ops': [['agetnd', 0, ix] for ix in (['ni', [2]], ['ni', [0, 2]], ['ni', [1, 1, 0]], ['nm', [T, Fa, T]], ['nm', [Fa, Fa, Fa]], ['ni', [0]])]})
+    cases.append({'z': True, 'objs': [['a', [[1.0], [0.0]]]], 'ops': [['agetnd', 0, ['nm', [T]]], ['agetnd', 0, ['ni', [0]]], ['agetnd', 0, ['ni', [0, 0]]]]})
+    return cases
+
 def gen_cases(rng, tier):
     nrand = 260 if tier == 'quick' else 5000
     cases = (readonly_sweep() + shape_sweep(rng) + helper_sweep(rng) + reduction_sweep(rng) + rounding_sweep(rng) + slice_sweep(rng)
-             + conv_sweep(rng)) + [gen_history(rng) for _ in range(nrand)]
+             + conv_sweep(rng) + deep3_sweep(rng)) + [gen_history(rng) for _ in range(nrand)]
     cases += small_scope(rng, tier)
+    cases += negative_sweep(rng)        # last: their deviations from NumPy are the (proposed) finding negative-index
     return cases
 
 def small_scope(rng, tier):
@@ -1022,6 +1168,17 @@ def np_eval(store, op):
             return ['upd', np_obs(x)]
         elif n == 'red':
             r = getattr(dense_of(store[op[2]]), op[1])(axis=op[3], keepdims=op[4])
+        elif n in ('zget', 'zaget'):
+            x = dense_of(store[op[1]])
+            r = x[build_zindex(op[2]) if n == 'zget' else build_zaindex(op[2])]
+            if n == 'zaget' and op[2][0] == 'zrow': return ['new', np_obs(r)]
+            return np_value(r)
+        elif n == 'zset':
+            x = dense_of(store[op[1]])
+            x[build_zindex(op[2])] = np_arg(op[3], store)
+            return ['upd', np_obs(x)]
+        elif n == 'agetnd':
+            return np_value(dense_of(store[op[1]])[:, build_index(op[2])])
         elif n == 'conv':
             x = store[op[2]].to_array()
             if op[1] in ('sv', 'sa', 'sp'): return ['self']              # np.asarray(a) is a
@@ -1062,9 +1219,31 @@ def in_fragment(store, op):
     if n == 'conv': return kind_of(store[op[2]]) == 'v' and op[3] in ('CIdent', 'CCopy') and op[1] != 'spc'
     if n == 'copylike':
         return kind_of(store[op[1]]) == 'v' and op[2][0] == 'o' and kind_of(store[op[2][1]]) == 'v'
+    if n == 'agetnd': return False
+    if n in ('zget', 'zset', 'zaget'):      # python-int indices: np_ystep of coq/C09/Model3.v
+        if n == 'zset':
+            a = op[3]
+            if a[0] == 'o': return kind_of(store[a[1]]) in ('v', 'l')
+            return a[0] in ('s', 'i', 'n0', 'sb', 'l', 'n', 'bl', 'bn')
+        return True
+    if n == 'aget':                         # 2-d block reads: np_extra3 of coq/C09/Model3.v
+        ax = op[2]
+        if ax[0] != 'pair' or kind_of(store[op[1]]) != 'a': return False
+        def is_open(ix): return ix[0] == 'o' or (ix[0] == 'sl' and ix[1] is None and ix[2] is None and ix[3] is None)
+        mk, nk = ax[1][0], ax[2][0]
+        n_listlike = nk in ('li', 'ni', 'm', 'nm') or (nk == 'sl' and not is_open(ax[2]))
+        if mk in ('sl', 'o') and n_listlike: return True
+        return mk in ('li', 'ni', 'm', 'nm') and nk == 'sl' and not is_open(ax[2])
     pos = {'bin': 2, 'ibin': 2, 'rbin': 3, 'un': 2, 'get': 1, 'set': 1, 'red': 2}.get(n)
     if pos is None: return False
     t = kind_of(store[op[pos]])
+    if t == 'l' and n == 'set':             # writes into a logical vector: np_extra3
+        a = op[3]
+        single = op[2][0] in ('i', 't')     # b[k] = <sequence of another length than 1>: NumPy's rule depends on the kind of sequence
+        if a[0] == 'o': return kind_of(store[a[1]]) == 'l' and not (single and store[a[1]].size != 1)
+        if a[0] in ('l', 'n', 'bl', 'bn') and single and len(a[1]) != 1: return False
+        return a[0] in ('s', 'i', 'n0', 'sb', 'l', 'n', 'bl', 'bn')
+    if t == 'l' and n == 'red' and op[1] in ('mean', 'max', 'min') and op[3] in (None, 0): return True
     if t == 'a':        # row-wise lifts: arithmetic with a vector / scalar / 1-d operand
         if n not in ('bin', 'ibin') or op[1] not in ARITH: return False
         a = op[3]
@@ -1103,9 +1282,15 @@ def cdoutcome(o):
     if k == 'dense': return f'(DDense {qlist([F(x) for x in o[1]])})'
     if k == 'denseb': return f'(DDenseB {cbits(o[1])})'
     return 'DSkip'
+def cdoutcome3(o):
+    if o[0] == 'dense2': return f'(D3Dense2 {clist(o[1], lambda r: qlist([F(x) for x in r]))})'
+    return f'(D3 {cdoutcome(o)})'
 def np_term(case, out):
-    outs = [cdoutcome(o) if f else 'DSkip' for o, f in zip(out['np'], out['frag'])]
-    return f'run_np_eqb {cbool(LEGACY)} {clist(case["objs"], cinit)} {clist(out["ops"], cop)} {clist(outs)}'
+    if case.get('z'):
+        outs = [cdoutcome(o) if f else 'DSkip' for o, f in zip(out['np'], out['frag'])]
+        return f'yrun_np_eqb {cbool(LEGACY)} {clist(case["objs"], cinit)} {clist(out["ops"], cyop)} {clist(outs)}'
+    outs = [cdoutcome3(o) if f else '(D3 DSkip)' for o, f in zip(out['np'], out['frag'])]
+    return f'run_np3_eqb {cbool(LEGACY)} {clist(case["objs"], cinit)} {clist(out["ops"], cop)} {clist(outs)}'
 
 # ------------------------------------------------------------------ direct oracle: the property itself on the implementation
 def fr(x): return F(x) if not isinstance(x, bool) else F(int(x))
@@ -1138,17 +1323,41 @@ def invariant(store):
 
 def opkind(store, op):
     n = op[0]
-    pos = {'bin': 2, 'ibin': 2, 'rbin': 3, 'un': 2, 'get': 1, 'set': 1, 'red': 2, 'aget': 1, 'aset': 1, 'copylike': 1, 'toflat': 1, 'fromflat': 1, 'conv': 2}[n]
+    pos = {'bin': 2, 'ibin': 2, 'rbin': 3, 'un': 2, 'get': 1, 'set': 1, 'red': 2, 'aget': 1, 'aset': 1, 'copylike': 1, 'toflat': 1, 'fromflat': 1, 'conv': 2,
+           'zget': 1, 'zset': 1, 'zaget': 1, 'agetnd': 1}[n]
     t = kind_of(store[op[pos]])
     name = op[1] if isinstance(op[1], str) else ''
-    ai = {'bin': 3, 'ibin': 3, 'set': 3, 'aset': 3, 'copylike': 2}.get(n)
+    ai = {'bin': 3, 'ibin': 3, 'set': 3, 'aset': 3, 'copylike': 2, 'zset': 3}.get(n)
     ak = ''
     if ai is not None:
         a = op[ai]
         ak = ('o-' + kind_of(store[a[1]]) + ('-self' if a[1] == op[pos] else '')) if a[0] == 'o' else a[0]
     return n, name, t, ak, pos
 
+def has_negative(op):
+    n = op[0]
+    if n in ('zget', 'zset'):
+        ix = op[2]
+        if ix[0] in ('zi', 'zt'): return ix[1] < 0
+        if ix[0] in ('zl', 'zn'): return any(k < 0 for k in ix[1])
+        if ix[0] == 'zs': return any(k is not None and k < 0 for k in ix[1:3])
+    if n == 'zaget':
+        ax = op[2]
+        ks = [ax[1]] if ax[0] == 'zrow' else ([ax[1], ax[2]] if ax[0] == 'zelem' else list(ax[1]) + [ax[2]])
+        return any(k < 0 for k in ks)
+    return False
+
+_LAST = [None]
 def oracle(case):
+    """the property on the implementation; a complaint about an operation that uses a negative int as an index is tagged"""
+    _LAST[0] = None
+    msg = _oracle(case)
+    if msg and _LAST[0] is not None and has_negative(_LAST[0]) and 'negative-index' not in msg:
+        head, _, rest = msg.partition(': ')
+        return f'{head}: negative-index: {rest}'
+    return msg
+
+def _oracle(case):
     try:
         store = [build_obj(o) for o in case['objs']]
     except Exception as ex:
@@ -1169,6 +1378,7 @@ def oracle(case):
             break
         op = resolve_op(store, raw)
         if op is None: continue
+        _LAST[0] = op
         n, name, t, ak, pos = opkind(store, op)
         tag = f'{n}:{name}:{t}:{ak}'
         ref = np_eval(store, op)
@@ -1189,7 +1399,7 @@ def oracle(case):
         msg = invariant(store)
         if msg: return f'{tag}: {msg}'
         after = [flat(snap(x)) for x in store]
-        mutator = n in ('ibin', 'set', 'aset', 'copylike', 'fromflat') or (n == 'un' and op[1] in ('clear',))
+        mutator = n in ('ibin', 'set', 'aset', 'zset', 'copylike', 'fromflat') or (n == 'un' and op[1] in ('clear',))
         if n == 'copylike' and o[0] == 'unit':
             # copying from (a view of) itself is a no-op: rows whose source is the row itself keep their content
             if op[2][0] == 'o' and op[2][1] == op[pos] and after[op[pos]] != before[op[pos]]:
@@ -1333,6 +1543,8 @@ def zero_class(pre_dense, op):
         return '0/0'
 
 CLASSES = [
+    ('negative-index', 'negative-index'),
+    ('agetnd:', 'open-row-slice-with-ndarray-columns'),
     ('raises ERuntime', 'runtime-error'),
     ('constructor-shares-rows', 'constructor-shares-rows'),
     ('copy-flag', 'sparse-copy-flag-ignored'),
@@ -1431,6 +1643,10 @@ WITNESSES += [
 # witnesses of behaviour found in round 3 on the unchanged tree; each becomes active (is replayed on every run) as soon as its
 # finding line is listed in known_findings.txt, so that the check passes before and re-establishes the finding after
 PROPOSED_WITNESSES = [
+    {'key': 'C09:open-row-slice-with-ndarray-columns',
+     'case': {'z': True, 'objs': [['a', [[1.0, 2.0]]]], 'ops': [['agetnd', 0, ['ni', [0, 1]]]]}},
+    {'key': 'C09:negative-index',
+     'case': {'z': True, 'objs': [['v', [1.0, 2.0], False]], 'ops': [['zget', 0, ['zi', -1]]]}},
     {'key': 'C09:constructor-shares-rows',
      'case': {'objs': [['a', [[1.0, 2.0], [0.0, 3.0]]]], 'ops': [['conv', 'SA', 0]]}},
     {'key': 'C09:sparse-copy-flag-ignored',
